@@ -190,171 +190,215 @@ func c10r1(p *Program, r *Report) {
 	}
 	for _, impl := range impls {
 		n := 0
-		unitLists := map[*FuncInfo]map[string]bool{}
-		for pass := 0; pass < 2; pass++ {
-			for _, fi := range p.unitsOf(impl) {
-				fi := fi
-				g := p.GraphOf(fi)
-				info := g.Info
-				// deduped: host expressions known absent from a per-token set at the time they were tested
-				dedup := Solve(g, Lattice[strset]{
-					Init: strset{}, Join: func(a, b strset) strset { return a.intersect(b) }, Eq: func(a, b strset) bool { return a.eq(b) },
-					Step: func(s strset, st Step) strset {
-						switch st.Kind {
-						case StCond:
-							ce, val := ast.Unparen(st.Node.(ast.Expr)), st.Val
-							for {
-								if u, ok := ce.(*ast.UnaryExpr); ok && u.Op == token.NOT {
-									ce, val = ast.Unparen(u.X), !val
-									continue
-								}
-								break
-							}
-							var ix *ast.IndexExpr
-							switch x := ce.(type) {
-							case *ast.IndexExpr: // seen[h]
-								ix = x
-							case *ast.Ident: // _, ok := seen[h]
-								ix = commaOkSource(g, info, x, st.Node)
-							}
-							if ix != nil && !val {
-								if m, ok := info.TypeOf(ix.X).Underlying().(*types.Map); ok && strings.Contains(m.Key().String(), "HostInfo") {
-									s = s.with(exprStr(ix.Index))
-								}
-							}
-						case StNode:
-							for _, l := range assignedLHS(st.Node) {
-								if _, isIx := ast.Unparen(l).(*ast.IndexExpr); isIx {
-									continue
-								}
-								ls := exprStr(l)
-								for k := range s {
-									if mentions(k, ls) {
-										s = s.without(k)
-									}
-								}
-							}
-						}
-						return s
-					},
-				})
-				// the replica slice variable: []*HostInfo appended to and stored into hostTokens
-				var dedupLists = map[string]bool{} // slices (source text) that only ever receive deduped hosts
-				// pass 1: appends into map-of-slices (skipped lists)
-				ast.Inspect(fi.Decl.Body, func(x ast.Node) bool {
-					as, ok := x.(*ast.AssignStmt)
-					if !ok || len(as.Lhs) != 1 || len(as.Rhs) != 1 {
-						return true
-					}
-					c, ok := ast.Unparen(as.Rhs[0]).(*ast.CallExpr)
-					if !ok || calleeName(info, c) != "builtin.append" || len(c.Args) != 2 || c.Ellipsis.IsValid() {
-						return true
-					}
-					if ix, ok := ast.Unparen(as.Lhs[0]).(*ast.IndexExpr); ok && exprStr(c.Args[0]) == exprStr(as.Lhs[0]) {
-						base := exprStr(ix.X)
-						s, _ := dedup.Before(as)
-						if s[exprStr(c.Args[1])] {
-							if _, seen := dedupLists[base]; !seen {
-								dedupLists[base] = true
-							}
-						} else {
-							dedupLists[base] = false
-						}
-					}
-					return true
-				})
-				unitLists[fi] = dedupLists
-				if pass == 0 {
-					continue
-				}
-				// listIsDeduped: e (in unit u) denotes a list that only holds hosts which passed the membership test
-				var listIsDeduped func(u *FuncInfo, e ast.Expr, depth int) (bool, string)
-				listIsDeduped = func(u *FuncInfo, e ast.Expr, depth int) (bool, string) {
-					e = ast.Unparen(e)
-					uinfo := u.Pkg.TypesInfo
-					if ix, isIx := e.(*ast.IndexExpr); isIx && unitLists[u][exprStr(ix.X)] {
-						return true, exprStr(ix.X)
-					}
-					id, isId := e.(*ast.Ident)
-					if !isId || depth > 3 {
-						return false, ""
-					}
-					if def := localDef(uinfo, u, id); def != nil {
-						return listIsDeduped(u, def, depth+1)
-					}
-					// a parameter of a helper: every call site passes such a list
-					if u.Obj != nil {
-						sig := u.Obj.Type().(*types.Signature)
-						for i := 0; i < sig.Params().Len(); i++ {
-							if sig.Params().At(i) != uinfo.Uses[id] {
+		units := p.unitsOf(impl)
+		// deduped: host expressions known absent from a per-token set at the time they were tested
+		dedupOf := map[*FuncInfo]*Solution[strset]{}
+		for _, fi := range units {
+			g := p.GraphOf(fi)
+			info := g.Info
+			dedupOf[fi] = Solve(g, Lattice[strset]{
+				Init: strset{}, Join: func(a, b strset) strset { return a.intersect(b) }, Eq: func(a, b strset) bool { return a.eq(b) },
+				Step: func(s strset, st Step) strset {
+					switch st.Kind {
+					case StCond:
+						ce, val := ast.Unparen(st.Node.(ast.Expr)), st.Val
+						for {
+							if u, ok := ce.(*ast.UnaryExpr); ok && u.Op == token.NOT {
+								ce, val = ast.Unparen(u.X), !val
 								continue
 							}
-							nsite, all, from := 0, true, ""
-							for _, caller := range p.unitsOf(impl) {
-								for _, c := range callsIn(caller.Decl.Body) {
-									if fn := calleeOf(caller.Pkg.TypesInfo, c); fn != nil && p.FuncOf(fn) == u && i < len(c.Args) {
-										nsite++
-										okA, w := listIsDeduped(caller, c.Args[i], depth+1)
-										if !okA {
-											all = false
-										}
-										from = w
-									}
+							break
+						}
+						var ix *ast.IndexExpr
+						switch x := ce.(type) {
+						case *ast.IndexExpr: // seen[h]
+							ix = x
+						case *ast.Ident: // _, ok := seen[h]
+							ix = commaOkSource(g, info, x, st.Node)
+						}
+						if ix != nil && !val {
+							if m, ok := info.TypeOf(ix.X).Underlying().(*types.Map); ok && strings.Contains(m.Key().String(), "HostInfo") {
+								s = s.with(exprStr(ix.Index))
+							}
+						}
+					case StNode:
+						for _, l := range assignedLHS(st.Node) {
+							if _, isIx := ast.Unparen(l).(*ast.IndexExpr); isIx {
+								continue
+							}
+							ls := exprStr(l)
+							for k := range s {
+								if mentions(k, ls) {
+									s = s.without(k)
 								}
 							}
-							return nsite > 0 && all, from
 						}
 					}
+					return s
+				},
+			})
+		}
+		// hostDeduped: host expression e, evaluated at statement `at` of unit u, passed the membership test: in u itself,
+		// or e is a parameter of u (never re-bound) and every call of u inside the implementation passes such a host
+		var hostDeduped func(u *FuncInfo, at ast.Node, e ast.Expr, depth int) bool
+		hostDeduped = func(u *FuncInfo, at ast.Node, e ast.Expr, depth int) bool {
+			if s, _ := dedupOf[u].Before(at); s[exprStr(e)] {
+				return true
+			}
+			id, isId := ast.Unparen(e).(*ast.Ident)
+			if !isId || depth > 2 || u.Obj == nil || u == impl {
+				return false
+			}
+			uinfo := u.Pkg.TypesInfo
+			sig := u.Obj.Type().(*types.Signature)
+			for i := 0; i < sig.Params().Len(); i++ {
+				if sig.Params().At(i) != uinfo.Uses[id] || !neverAssigned(uinfo, u.Decl.Body, uinfo.Uses[id]) {
+					continue
+				}
+				nsite, all := 0, true
+				for _, caller := range units {
+					for _, c := range callsIn(caller.Decl.Body) {
+						if fn := calleeOf(caller.Pkg.TypesInfo, c); fn != nil && p.FuncOf(fn) == u && i < len(c.Args) {
+							nsite++
+							if !hostDeduped(caller, p.stmtOf(c, caller), c.Args[i], depth+1) {
+								all = false
+							}
+						}
+					}
+				}
+				return nsite > 0 && all && !p.usedAsValue(u)
+			}
+			return false
+		}
+		// isHostList: a []*HostInfo variable or field path
+		isHostList := func(info *types.Info, e ast.Expr) bool {
+			if !isFieldPath(e) {
+				return false
+			}
+			t := info.TypeOf(e)
+			return t != nil && strings.Contains(t.String(), "[]*") && strings.Contains(t.String(), "HostInfo")
+		}
+		// listKey: map-of-lists bases are tracked per unit for locals and per field for fields (all units together)
+		listKey := func(u *FuncInfo, base ast.Expr) string {
+			if f := fieldOf(u.Pkg.TypesInfo, base); f != nil {
+				return fmt.Sprintf("field:%s@%d", f.Name(), f.Pos())
+			}
+			return u.Name + ":" + exprStr(base)
+		}
+		dedupLists := map[string]bool{} // map-of-slices that only ever receive deduped hosts
+		for _, fi := range units {
+			info := fi.Pkg.TypesInfo
+			// pass 1: appends into map-of-slices (skipped lists)
+			ast.Inspect(fi.Decl.Body, func(x ast.Node) bool {
+				as, ok := x.(*ast.AssignStmt)
+				if !ok || len(as.Lhs) != 1 || len(as.Rhs) != 1 {
+					return true
+				}
+				c, ok := ast.Unparen(as.Rhs[0]).(*ast.CallExpr)
+				if !ok || calleeName(info, c) != "builtin.append" || len(c.Args) != 2 || c.Ellipsis.IsValid() {
+					return true
+				}
+				if ix, ok := ast.Unparen(as.Lhs[0]).(*ast.IndexExpr); ok && exprStr(c.Args[0]) == exprStr(as.Lhs[0]) {
+					key := listKey(fi, ix.X)
+					if hostDeduped(fi, as, c.Args[1], 0) {
+						if _, seen := dedupLists[key]; !seen {
+							dedupLists[key] = true
+						}
+					} else {
+						dedupLists[key] = false
+					}
+				}
+				return true
+			})
+		}
+		for _, fi := range units {
+			fi := fi
+			info := fi.Pkg.TypesInfo
+			// listIsDeduped: e (in unit u) denotes a list that only holds hosts which passed the membership test
+			var listIsDeduped func(u *FuncInfo, e ast.Expr, depth int) (bool, string)
+			listIsDeduped = func(u *FuncInfo, e ast.Expr, depth int) (bool, string) {
+				e = ast.Unparen(e)
+				uinfo := u.Pkg.TypesInfo
+				if ix, isIx := e.(*ast.IndexExpr); isIx && dedupLists[listKey(u, ix.X)] {
+					return true, exprStr(ix.X)
+				}
+				if sl, isSl := e.(*ast.SliceExpr); isSl {
+					return listIsDeduped(u, sl.X, depth+1)
+				}
+				id, isId := e.(*ast.Ident)
+				if !isId || depth > 3 {
 					return false, ""
 				}
-				ast.Inspect(fi.Decl.Body, func(x ast.Node) bool {
-					as, ok := x.(*ast.AssignStmt)
-					if !ok || len(as.Lhs) != 1 || len(as.Rhs) != 1 {
-						return true
-					}
-					c, ok := ast.Unparen(as.Rhs[0]).(*ast.CallExpr)
-					if !ok || calleeName(info, c) != "builtin.append" || len(c.Args) < 2 {
-						return true
-					}
-					lid, ok := as.Lhs[0].(*ast.Ident)
-					if !ok || exprStr(c.Args[0]) != lid.Name {
-						return true
-					}
-					if t := info.TypeOf(lid); t == nil || !strings.Contains(t.String(), "[]*") || !strings.Contains(t.String(), "HostInfo") {
-						return true
-					}
-					n++
-					name := fi.Name + " appends " + exprStr(c.Args[1]) + " to the replica list"
-					s, _ := dedup.Before(as)
-					arg := c.Args[1]
-					ok2 := s[exprStr(arg)]
-					why := "dominated by a negative membership test on " + exprStr(arg)
-					if !ok2 {
-						// element of a list that only holds deduped hosts: sh := skippedHosts[k]; skippedHosts := skipped[dc]
-						src := arg
-						if c.Ellipsis.IsValid() {
-							if sl, isSl := ast.Unparen(arg).(*ast.SliceExpr); isSl {
-								src = sl.X
-							}
-						} else if id, isId := ast.Unparen(arg).(*ast.Ident); isId {
-							if def := localDef(info, fi, id); def != nil {
-								if ix, isIx := ast.Unparen(def).(*ast.IndexExpr); isIx {
-									src = ix.X
+				if def := localDef(uinfo, u, id); def != nil {
+					return listIsDeduped(u, def, depth+1)
+				}
+				// a parameter of a helper: every call site passes such a list
+				if u.Obj != nil {
+					sig := u.Obj.Type().(*types.Signature)
+					for i := 0; i < sig.Params().Len(); i++ {
+						if sig.Params().At(i) != uinfo.Uses[id] {
+							continue
+						}
+						nsite, all, from := 0, true, ""
+						for _, caller := range units {
+							for _, c := range callsIn(caller.Decl.Body) {
+								if fn := calleeOf(caller.Pkg.TypesInfo, c); fn != nil && p.FuncOf(fn) == u && i < len(c.Args) {
+									nsite++
+									okA, w := listIsDeduped(caller, c.Args[i], depth+1)
+									if !okA {
+										all = false
+									}
+									from = w
 								}
 							}
 						}
-						if ix, isIx := ast.Unparen(arg).(*ast.IndexExpr); isIx && !c.Ellipsis.IsValid() {
-							src = ix.X
+						return nsite > 0 && all, from
+					}
+				}
+				return false, ""
+			}
+			ast.Inspect(fi.Decl.Body, func(x ast.Node) bool {
+				as, ok := x.(*ast.AssignStmt)
+				if !ok || len(as.Lhs) != 1 || len(as.Rhs) != 1 {
+					return true
+				}
+				c, ok := ast.Unparen(as.Rhs[0]).(*ast.CallExpr)
+				if !ok || calleeName(info, c) != "builtin.append" || len(c.Args) < 2 {
+					return true
+				}
+				if !isHostList(info, as.Lhs[0]) || exprStr(c.Args[0]) != exprStr(as.Lhs[0]) {
+					return true
+				}
+				n++
+				name := fi.Name + " appends " + exprStr(c.Args[1]) + " to the replica list"
+				arg := c.Args[1]
+				ok2 := hostDeduped(fi, as, arg, 0)
+				why := "dominated by a negative membership test on " + exprStr(arg)
+				if !ok2 {
+					// element of a list that only holds deduped hosts: sh := skippedHosts[k]; skippedHosts := skipped[dc]
+					src := arg
+					if c.Ellipsis.IsValid() {
+						if sl, isSl := ast.Unparen(arg).(*ast.SliceExpr); isSl {
+							src = sl.X
 						}
-						if okL, from := listIsDeduped(fi, src, 0); okL {
-							ok2 = true
-							why = "taken from " + from + ", which only receives hosts that passed the membership test"
+					} else if id, isId := ast.Unparen(arg).(*ast.Ident); isId {
+						if def := localDef(info, fi, id); def != nil {
+							if ix, isIx := ast.Unparen(def).(*ast.IndexExpr); isIx {
+								src = ix.X
+							}
 						}
 					}
-					r.Check(ok2, as, name, why, "a node is appended to a token's replica list without a preceding negative membership test on a per-token set: with virtual nodes the same node is listed twice (and displaces a real replica; the token-aware policy offers it twice)")
-					return true
-				})
-			}
+					if ix, isIx := ast.Unparen(arg).(*ast.IndexExpr); isIx && !c.Ellipsis.IsValid() {
+						src = ix.X
+					}
+					if okL, from := listIsDeduped(fi, src, 0); okL {
+						ok2 = true
+						why = "taken from " + from + ", which only receives hosts that passed the membership test"
+					}
+				}
+				r.Check(ok2, as, name, why, "a node is appended to a token's replica list without a preceding negative membership test on a per-token set: with virtual nodes the same node is listed twice (and displaces a real replica; the token-aware policy offers it twice)")
+				return true
+			})
 		}
 		if n == 0 {
 			r.Unresolved("%s: no append to a replica list", impl.Name)
@@ -479,6 +523,19 @@ func c10r4(p *Program, r *Report) {
 				}
 				found = true
 				tokens := exprStr(tokIdx.X)
+				// names for the ring size: len(tokens) and locals bound once to it
+				sizes := map[string]bool{"len(" + tokens + ")": true}
+				ast.Inspect(fi.Decl.Body, func(m ast.Node) bool {
+					if as, ok := m.(*ast.AssignStmt); ok && len(as.Lhs) == 1 && len(as.Rhs) == 1 && exprStr(as.Rhs[0]) == "len("+tokens+")" {
+						if lid, isId := as.Lhs[0].(*ast.Ident); isId && info.Defs[lid] != nil && singleAssigned(info, fi.Decl.Body, info.Defs[lid]) {
+							sizes[lid.Name] = true
+						}
+					}
+					return true
+				})
+				if tid, isId := ast.Unparen(tokIdx.X).(*ast.Ident); isId && !neverAssigned(info, fs, info.Uses[tid]) {
+					sizes = map[string]bool{"len(" + tokens + ")": true}
+				}
 				// loop variable
 				loopVar := ""
 				if as, ok := fs.Init.(*ast.AssignStmt); ok && len(as.Lhs) == 1 {
@@ -498,24 +555,47 @@ func c10r4(p *Program, r *Report) {
 				split(fs.Cond)
 				bounded := false
 				for _, a := range atoms {
-					if a == loopVar+" < len("+tokens+")" {
-						bounded = true
+					for sz := range sizes {
+						if a == loopVar+" < "+sz {
+							bounded = true
+						}
 					}
 				}
 				r.Check(bounded, fs, fi.Name+" ring walk covers every ring position", "bounded by "+loopVar+" < len("+tokens+")",
 					"the clockwise walk is not bounded by the number of ring positions (len("+tokens+")): with virtual nodes it stops before enough distinct nodes were seen (replica lists too short) or runs past the ring")
 				// index stays inside the ring: modulo len(tokens) or explicit wrap
 				idx := exprStr(tokIdx.Index)
-				wrapOK := strings.Contains(idx, "% len("+tokens+")")
+				wrapOK := false
+				for sz := range sizes {
+					if strings.Contains(idx, "% "+sz) {
+						wrapOK = true
+					}
+				}
 				if !wrapOK {
 					if id, ok := ast.Unparen(tokIdx.Index).(*ast.Ident); ok {
 						// p := i + j; if p >= len(tokens) { p -= len(tokens) }
 						ast.Inspect(fs.Body, func(m ast.Node) bool {
-							if ifs, ok := m.(*ast.IfStmt); ok && exprStr(ifs.Cond) == id.Name+" >= len("+tokens+")" {
-								wrapOK = true
+							if ifs, ok := m.(*ast.IfStmt); ok {
+								for sz := range sizes {
+									if exprStr(ifs.Cond) == id.Name+" >= "+sz {
+										wrapOK = true
+									}
+								}
 							}
 							return true
 						})
+					}
+				}
+				if !wrapOK {
+					// the position is computed by a helper that wraps at the size it is given
+					if hc, ok := ast.Unparen(tokIdx.Index).(*ast.CallExpr); ok {
+						if fn := calleeOf(info, hc); fn != nil {
+							if h := p.FuncOf(fn); h != nil && h.Pkg == p.Root {
+								if k, isWrap := wrapsAtParam(h); isWrap && k < len(hc.Args) && sizes[exprStr(hc.Args[k])] {
+									wrapOK = true
+								}
+							}
+						}
 					}
 				}
 				r.Check(wrapOK, tokIdx, fi.Name+" ring walk wraps around", "index reduced modulo len("+tokens+")", "the walk index is not wrapped at the end of the ring")
@@ -627,11 +707,10 @@ func c10r6(p *Program, r *Report) {
 		if !ok || calleeName(info, c) != "builtin.append" || len(c.Args) < 2 {
 			return nil, false
 		}
-		lid, ok := as.Lhs[0].(*ast.Ident)
-		if !ok || exprStr(c.Args[0]) != lid.Name {
+		if !isFieldPath(as.Lhs[0]) || exprStr(c.Args[0]) != exprStr(as.Lhs[0]) {
 			return nil, false
 		}
-		if t := info.TypeOf(lid); t == nil || !strings.Contains(t.String(), "[]*") || !strings.Contains(t.String(), "HostInfo") {
+		if t := info.TypeOf(as.Lhs[0]); t == nil || !strings.Contains(t.String(), "[]*") || !strings.Contains(t.String(), "HostInfo") {
 			return nil, false
 		}
 		return c, true
@@ -668,7 +747,56 @@ func c10r6(p *Program, r *Report) {
 		}
 		return true
 	})
-	if walk == nil {
+	var walkNode ast.Node
+	var walkBody []ast.Stmt
+	if walk != nil {
+		walkNode, walkBody = walk, walk.Body.List
+	} else {
+		// the step of the walk was moved into a helper that a loop of replicaMap calls once per ring position
+		for _, u := range p.unitsOf(fi)[1:] {
+			writesCount := false
+			ast.Inspect(u.Decl.Body, func(y ast.Node) bool {
+				switch z := y.(type) {
+				case *ast.AssignStmt:
+					for _, l := range z.Lhs {
+						if isCountExpr(l) {
+							writesCount = true
+						}
+					}
+				case *ast.IncDecStmt:
+					if isCountExpr(z.X) {
+						writesCount = true
+					}
+				}
+				return true
+			})
+			appends := false
+			ast.Inspect(u.Decl.Body, func(y ast.Node) bool {
+				if as, ok := y.(*ast.AssignStmt); ok {
+					if _, ok := isReplicaAppend(as); ok {
+						appends = true
+					}
+				}
+				return true
+			})
+			if !writesCount || !appends {
+				continue
+			}
+			calledInLoop := false
+			ast.Inspect(fi.Decl.Body, func(y ast.Node) bool {
+				if es, ok := y.(*ast.ExprStmt); ok {
+					if c, ok := es.X.(*ast.CallExpr); ok && calleeOf(info, c) == u.Obj && p.inLoop(es, fi.Decl) {
+						calledInLoop = true
+					}
+				}
+				return true
+			})
+			if calledInLoop && walkNode == nil {
+				walkNode, walkBody = u.Decl, u.Decl.Body.List
+			}
+		}
+	}
+	if walkNode == nil {
 		r.Unresolved("networkTopology.replicaMap: the clockwise walk loop that counts replicas per datacenter was not found")
 		return
 	}
@@ -728,6 +856,9 @@ func c10r6(p *Program, r *Report) {
 	evalLin = func(s *pstate, e ast.Expr) (lin, bool) {
 		e = ast.Unparen(e)
 		if k, ok := constInt(info, e); ok {
+			if k == 0 {
+				return lin{}, true
+			}
 			return lin{"": int(k)}, true
 		}
 		if isCountExpr(e) {
@@ -991,6 +1122,34 @@ func c10r6(p *Program, r *Report) {
 							}
 						}
 					}
+					if !okInc && x.Post == nil && x.Init == nil && len(x.Body.List) > 0 {
+						// `for k < ... { ...; k++ }`: the counter is stepped by the last statement of the body
+						if last, isInc := x.Body.List[len(x.Body.List)-1].(*ast.IncDecStmt); isInc {
+							if cid, isId := last.X.(*ast.Ident); isId {
+								steps := 0
+								ast.Inspect(x.Body, func(y ast.Node) bool {
+									switch z := y.(type) {
+									case *ast.IncDecStmt:
+										if isIdentOf(info, z.X, info.Uses[cid]) {
+											steps++
+										}
+									case *ast.AssignStmt:
+										for _, l := range z.Lhs {
+											if isIdentOf(info, l, info.Uses[cid]) {
+												steps += 2
+											}
+										}
+									case *ast.BranchStmt:
+										steps += 2 // continue would skip the step
+									}
+									return true
+								})
+								if steps == 1 {
+									inc, okInc = last, true
+								}
+							}
+						}
+					}
 					if okInc && inc.Tok == token.INC && !other {
 						if id, ok := inc.X.(*ast.Ident); ok {
 							start, known := s.env[id.Name]
@@ -1087,7 +1246,7 @@ func c10r6(p *Program, r *Report) {
 		return states
 	}
 	start := &pstate{env: map[string]lin{}, app: lin{}, count: lin{"C": 1}}
-	paths := exec(walk.Body.List, []*pstate{start})
+	paths := exec(walkBody, []*pstate{start})
 	if len(paths) == 0 || len(paths) > 4096 {
 		r.Unresolved("networkTopology.replicaMap: %d paths through one step of the walk", len(paths))
 		return
@@ -1104,7 +1263,7 @@ func c10r6(p *Program, r *Report) {
 			continue
 		}
 		seen[key] = true
-		r.Check(str(s.app) == str(delta), walk, "(*networkTopology).replicaMap walk step: "+key, "hosts appended == increase of the per-datacenter count",
+		r.Check(str(s.app) == str(delta), walkNode, "(*networkTopology).replicaMap walk step: "+key, "hosts appended == increase of the per-datacenter count",
 			"on a path through one step of the clockwise walk "+str(s.app)+" host(s) are appended to the replica list while the per-datacenter replica count grows by "+str(delta)+": the walk then takes too many (or too few) nodes of that datacenter and another datacenter loses its slots")
 	}
 }
@@ -1148,7 +1307,15 @@ func c10r7(p *Program, r *Report) {
 			n++
 			obj := info.Uses[id]
 			// the token loop this store belongs to
-			loop, _ := p.enclosing(cl, fi.Decl, func(m ast.Node) bool { _, is := m.(*ast.RangeStmt); return is }).(*ast.RangeStmt)
+			var loop *ast.BlockStmt
+			for cur := p.Parent(cl); cur != nil && cur != ast.Node(fi.Decl); cur = p.Parent(cur) {
+				switch l := cur.(type) {
+				case *ast.RangeStmt:
+					loop = l.Body
+				case *ast.ForStmt:
+					loop = l.Body
+				}
+			}
 			var bad []string
 			ndef := 0
 			ast.Inspect(fi.Decl.Body, func(y ast.Node) bool {
@@ -1160,7 +1327,7 @@ func c10r7(p *Program, r *Report) {
 							continue
 						}
 						ndef++
-						if loop != nil && !posWithin(loop.Body, s.Pos()) {
+						if loop != nil && !posWithin(loop, s.Pos()) {
 							bad = append(bad, p.Pos(s)+": defined outside the per-token loop")
 							continue
 						}
@@ -1198,6 +1365,9 @@ func c10r7(p *Program, r *Report) {
 							okDef = true
 						case *ast.Ident:
 							okDef = v.Name == "nil"
+						case *ast.SelectorExpr:
+							// a list kept in a field of a walk object that a method called earlier in this iteration re-creates
+							okDef = loop != nil && p.fieldFreshInIteration(fi, loop, s, v)
 						}
 						if !okDef {
 							bad = append(bad, p.Pos(s)+": "+id.Name+" = "+exprStr(rhs))
@@ -1207,7 +1377,7 @@ func c10r7(p *Program, r *Report) {
 					for _, vn := range s.Names {
 						if info.Defs[vn] == obj {
 							ndef++
-							if loop != nil && !posWithin(loop.Body, s.Pos()) {
+							if loop != nil && !posWithin(loop, s.Pos()) {
 								bad = append(bad, p.Pos(s)+": declared outside the per-token loop")
 							}
 						}
@@ -1223,4 +1393,173 @@ func c10r7(p *Program, r *Report) {
 			r.Unresolved("%s stores no hostTokens entry", name)
 		}
 	}
+}
+
+// wrapsAtParam: h returns an integer it reduced into a ring of the size given by parameter k: either `x % size`,
+// or a variable x that is returned after `if x >= size { x -= size }`.
+func wrapsAtParam(h *FuncInfo) (int, bool) {
+	if h.Decl.Body == nil || h.Decl.Type.Params == nil {
+		return 0, false
+	}
+	info := h.Pkg.TypesInfo
+	var params []types.Object
+	for _, f := range h.Decl.Type.Params.List {
+		for _, n := range f.Names {
+			params = append(params, info.Defs[n])
+		}
+	}
+	idxOf := func(e ast.Expr) int {
+		for i, o := range params {
+			if isIdentOf(info, e, o) && neverAssigned(info, h.Decl.Body, o) {
+				return i
+			}
+		}
+		return -1
+	}
+	var rets []*ast.ReturnStmt
+	inspectNoLit(h.Decl.Body, func(x ast.Node) bool {
+		if rs, ok := x.(*ast.ReturnStmt); ok {
+			rets = append(rets, rs)
+		}
+		return true
+	})
+	if len(rets) != 1 || len(rets[0].Results) != 1 {
+		return 0, false
+	}
+	res := ast.Unparen(rets[0].Results[0])
+	if b, ok := res.(*ast.BinaryExpr); ok && b.Op == token.REM {
+		if k := idxOf(b.Y); k >= 0 {
+			return k, true
+		}
+	}
+	id, ok := res.(*ast.Ident)
+	if !ok {
+		return 0, false
+	}
+	obj := info.Uses[id]
+	// the last statement before the return is the wrap
+	list := h.Decl.Body.List
+	if len(list) < 2 || list[len(list)-1] != ast.Stmt(rets[0]) {
+		return 0, false
+	}
+	ifs, ok := list[len(list)-2].(*ast.IfStmt)
+	if !ok || ifs.Else != nil || ifs.Init != nil || len(ifs.Body.List) != 1 {
+		return 0, false
+	}
+	c, ok := ast.Unparen(ifs.Cond).(*ast.BinaryExpr)
+	if !ok || c.Op != token.GEQ || !isIdentOf(info, c.X, obj) {
+		return 0, false
+	}
+	k := idxOf(c.Y)
+	as, ok := ifs.Body.List[0].(*ast.AssignStmt)
+	if k < 0 || !ok || len(as.Lhs) != 1 || len(as.Rhs) != 1 || !isIdentOf(info, as.Lhs[0], obj) {
+		return 0, false
+	}
+	switch as.Tok {
+	case token.SUB_ASSIGN:
+		if idxOf(as.Rhs[0]) == k {
+			return k, true
+		}
+	case token.ASSIGN:
+		if b, ok := ast.Unparen(as.Rhs[0]).(*ast.BinaryExpr); ok && (b.Op == token.SUB || b.Op == token.REM) && isIdentOf(info, b.X, obj) && idxOf(b.Y) == k {
+			return k, true
+		}
+	}
+	return 0, false
+}
+
+// fieldFreshInIteration: sel (X.f, a slice field) read at statement `at` inside the loop body holds a list created in
+// this iteration: an earlier top-level statement of the loop body calls a method X.m(...) whose body starts its work
+// on f by assigning it a fresh list at its top level, and every other assignment of f in the package extends f itself.
+func (p *Program) fieldFreshInIteration(fi *FuncInfo, loop *ast.BlockStmt, at ast.Stmt, sel *ast.SelectorExpr) bool {
+	info := fi.Pkg.TypesInfo
+	f := fieldOf(info, sel)
+	if f == nil {
+		return false
+	}
+	isFresh := func(e ast.Expr) bool {
+		switch v := ast.Unparen(e).(type) {
+		case *ast.CallExpr:
+			return exprStr(v.Fun) == "make"
+		case *ast.CompositeLit:
+			return true
+		case *ast.Ident:
+			return v.Name == "nil"
+		}
+		return false
+	}
+	// every assignment of the field: fresh or self-append
+	okAll := true
+	p.forEachFunc(false, func(u *FuncInfo) {
+		uinfo := u.Pkg.TypesInfo
+		ast.Inspect(u.Decl.Body, func(x ast.Node) bool {
+			switch y := x.(type) {
+			case *ast.AssignStmt:
+				for i, l := range y.Lhs {
+					if fieldOf(uinfo, l) != f {
+						continue
+					}
+					if len(y.Rhs) != len(y.Lhs) {
+						okAll = false
+						continue
+					}
+					rhs := ast.Unparen(y.Rhs[i])
+					if isFresh(rhs) {
+						continue
+					}
+					if c, ok := rhs.(*ast.CallExpr); ok && exprStr(c.Fun) == "append" && len(c.Args) > 0 && exprStr(c.Args[0]) == exprStr(l) {
+						continue
+					}
+					okAll = false
+				}
+			case *ast.UnaryExpr:
+				if y.Op == token.AND && fieldOf(uinfo, y.X) == f {
+					okAll = false
+				}
+			case *ast.KeyValueExpr:
+				if k, ok := y.Key.(*ast.Ident); ok && uinfo.Uses[k] == types.Object(f) && !isFresh(y.Value) {
+					okAll = false
+				}
+			}
+			return true
+		})
+	})
+	if !okAll {
+		return false
+	}
+	for _, st := range loop.List {
+		if st.Pos() >= at.Pos() {
+			break
+		}
+		es, ok := st.(*ast.ExprStmt)
+		if !ok {
+			continue
+		}
+		c, ok := es.X.(*ast.CallExpr)
+		if !ok {
+			continue
+		}
+		rx := recvExpr(c)
+		if rx == nil || exprStr(ast.Unparen(rx)) != exprStr(ast.Unparen(sel.X)) {
+			continue
+		}
+		fn := calleeOf(info, c)
+		if fn == nil {
+			continue
+		}
+		m := p.FuncOf(fn)
+		if m == nil || m.Decl.Body == nil {
+			continue
+		}
+		for _, ms := range m.Decl.Body.List {
+			if as, ok := ms.(*ast.AssignStmt); ok && len(as.Lhs) == 1 && len(as.Rhs) == 1 && fieldOf(m.Pkg.TypesInfo, as.Lhs[0]) == f && isFresh(as.Rhs[0]) {
+				if rs, ok := ast.Unparen(as.Lhs[0]).(*ast.SelectorExpr); ok {
+					if rid, isId := ast.Unparen(rs.X).(*ast.Ident); isId && p.isReceiverOf(m, rid) {
+						return true
+					}
+				}
+			}
+		}
+	}
+	return false
 }
